@@ -705,7 +705,7 @@ impl RadixDivisionParams {
                 for limb in limbs[..limb_count].iter_mut().rev() {
                     (limb.0, carry.0) = div2by1(carry.0, limb.0, &self.reciprocal);
                 }
-                if limbs[limb_count - 1] << lshift < div_limb {
+                if limbs[limb_count - 1] < div_limb {
                     hi = limbs[limb_count - 1];
                     limb_count -= 1;
                 } else {
